@@ -485,7 +485,9 @@ func (tb *TB) buildSystem(facts []Atom, at *ssa.BasicBlock, before ssa.Instructi
 					bs, bc, _ := tb.lenSym(c.Call.Args[len(c.Call.Args)-1])
 					s.le(n, bs, bc)
 					s.le(bs, n, -bc)
-				case "strings.LastIndex", "strings.Index", "strings.IndexByte", "strings.IndexRune", "bytes.IndexByte", "bytes.Index":
+				case "strings.LastIndex", "strings.Index", "strings.IndexByte", "strings.IndexRune", "bytes.IndexByte", "bytes.Index",
+					"strings.LastIndexByte", "bytes.LastIndexByte", "strings.IndexFunc", "bytes.IndexFunc", "strings.LastIndexFunc", "bytes.LastIndexFunc",
+					"strings.IndexAny", "strings.LastIndexAny", "bytes.IndexAny", "bytes.LastIndexAny", "bytes.LastIndex", "bytes.IndexRune":
 					// -1 <= r  and  r + 1 <= len(s) (r < len(s))
 					s.le("0", sym, 1)
 					ls, lc, _ := tb.lenSym(c.Call.Args[0])
